@@ -347,6 +347,7 @@ func fillStuff(pkt *[188]byte, pos *int, bodySize int, inSize int) {
 
 		len := *pos - base
 		copy(pkt[base+stuffSize:], pkt[base:base+len])
+		copy(pkt[base:base+stuffSize], mpegtsStuff[:]) // 填充字节必须为 0xff，不能残留旧数据
 		// increase the adaption field size.
 		pkt[4] += byte(stuffSize)
 
